@@ -4,12 +4,14 @@ CFG = {
     "props_module": "RpmVerif.Props.C05",
     "required_theorems": ["RpmVerif.C05.file_digest_lengths_standard", "RpmVerif.C05.fileDigestNew_ok_iff", "RpmVerif.C05.old_sha224_length_witness", "RpmVerif.C05.parsed_entries_stored", "RpmVerif.C05.getter_value_is_stored", "RpmVerif.C05.getter_absent",
                           "RpmVerif.C05.getter_wrong_type", "RpmVerif.C05.filePaths_spec", "RpmVerif.C05.filePaths_bad_index",
-                          "RpmVerif.C05.deps_zip", "RpmVerif.C05.getFilePaths_total"],
+                          "RpmVerif.C05.deps_zip", "RpmVerif.C05.getFilePaths_total",
+                          "RpmVerif.C05.installed_size_spec", "RpmVerif.C05.installed_size_is_stored", "RpmVerif.C05.compression_names_ascii",
+                          "RpmVerif.C05.compressor_absent_is_none", "RpmVerif.C05.compressor_known_iff", "RpmVerif.C05.source_iff_tag_present"],
     "trivial_branches": ["rejected"],
     "rule": "asset + fixture packages and seeded hand-encoded headers from a typed generator: every tag an accessor reads, present with "
             "probability 3/5, its natural type 7/8 of the time and any of the 10 types otherwise, counts 0..4 (per-file arrays mostly of one common "
             "length), multi-locale i18n arrays, 32- and 64-bit size tags, dir indexes in and out of range, digest texts of every accepted and "
-            "unaccepted length, algorithm numbers in and outside the enum, non-UTF-8 / empty strings, duplicated tags (first must win), shuffled index, "
+            "unaccepted length, algorithm numbers in and outside the enum, compressor names (every accepted one, other case, trailing blank, non-ASCII, unknown, empty), non-UTF-8 / empty strings, duplicated tags (first must win), shuffled index, "
             "optional IMA signatures in the signature header. Observable: a canonical dump of all 40 accessors (errors collapsed to `err`). "
             "Non-trivial = header accepted; distinct = distinct request lines.",
     "exhaustive": False,
@@ -21,6 +23,8 @@ CFG = {
                   "relational reading of the format (Stores); a typed getter yields the projection of the FIRST entry with the tag, TagNotFound when absent, "
                   "UnexpectedTagDataType for another type - never a made-up value; file paths are dirs[dirindex[k]] joined with basenames[k] (error on an "
                   "out-of-range index), dependency / changelog lists are the arrays zipped in order, empty when all three tags are absent, an error when a "
-                  "member is missing; no accessor panics. The model is tied to the code by comparing the full accessor dump on every generated header. File digests: the (algorithm, hex length) pairs FileDigest::new accepts are regenerated from the source on every run and proved to be the algorithms' real output sizes (file_digest_lengths_standard, code_table_is_standard, fileDigestNew_ok_iff); the spec judges them by the real sizes (SHA-224 = 56: old_sha224_length_witness).",
+                  "member is missing; installed size is the first LONGSIZE value, else exactly what the SIZE getter gives (installed_size_spec, installed_size_is_stored); "
+                  "the payload compressor is None for an absent tag, otherwise the variant the source's from_str table (regenerated on every run) pairs with the stored text, and an "
+                  "error for every other text (compressor_absent_is_none, compressor_known_iff); is_source_package is presence of the tag alone (source_iff_tag_present); no accessor panics. The model is tied to the code by comparing the full accessor dump on every generated header. File digests: the (algorithm, hex length) pairs FileDigest::new accepts are regenerated from the source on every run and proved to be the algorithms' real output sizes (file_digest_lengths_standard, code_table_is_standard, fileDigestNew_ok_iff); the spec judges them by the real sizes (SHA-224 = 56: old_sha224_length_witness).",
     "level_note": "Trusted: Lean kernel; model fidelity as exercised (40 accessors compared textually per case); from_utf8_lossy and Path::join models.",
 }
